@@ -27,6 +27,13 @@ operator, and in the quoting forms.  Oracle unchanged, plus: exactly as many com
 written on the line (one; two in the operator positions) - every recorder invocation is counted,
 also for the real child (its helper appends one record per run).
 
+Part D enumerates LITERALS WRITTEN OVER SEVERAL PHYSICAL LINES: every sequence of 1..n line kinds
+{ordinary, ending in a backslash, starting with `#`, empty, containing the other triple quote, `#`
+line ending in a backslash} inside triple quotes (single, double, f-prefixed, r-prefixed), as an ordinary
+argument and with the command continued after the literal by backslash-newline, with and without a
+comment-only line in that continuation.  Expected argument = the Python value of the literal (Python
+itself evaluates it); the words after the continuation must still belong to the one command.
+
 Oracle (from the statement + docs/tutorial.rst, docs/strings.rst, docs/macros.rst, env docs):
   * quoted non-raw literal  -> one argument = documented expansion of its Python value;
   * raw literal             -> one argument = its Python value, untouched;
